@@ -19,6 +19,40 @@ def subst(expr: ast.expr, mapping: dict[str, ast.expr]) -> ast.expr:
     return ast.fix_missing_locations(T().visit(copy.deepcopy(expr)))
 
 
+def expand_predicate(ctx, fn: FuncInfo, e: ast.expr, depth: int = 3) -> ast.expr:
+    """Calls to repository functions/methods whose body is a single `return <expr>` are replaced by that expression in the caller's
+    terms (also inside visitor classes, whose methods the inliner leaves alone); `not`/and/or are traversed."""
+    if depth <= 0:
+        return e
+    if isinstance(e, ast.UnaryOp) and isinstance(e.op, ast.Not):
+        return ast.UnaryOp(op=ast.Not(), operand=expand_predicate(ctx, fn, e.operand, depth))
+    if isinstance(e, ast.BoolOp):
+        return ast.BoolOp(op=e.op, values=[expand_predicate(ctx, fn, v, depth) for v in e.values])
+    if isinstance(e, ast.Call) and not any(isinstance(a, ast.Starred) for a in e.args) and not any(k.arg is None for k in e.keywords):
+        try:
+            ts = ctx.resolver(fn).resolve_call(e)
+        except Exception:
+            return e
+        if len(ts) == 1 and isinstance(ts[0], FuncInfo) and isinstance(ts[0].node, ast.FunctionDef):
+            h = ts[0]
+            body = [st for st in h.node.body if not (isinstance(st, ast.Expr) and isinstance(st.value, ast.Constant) and isinstance(st.value.value, str))]
+            if len(body) == 1 and isinstance(body[0], ast.Return) and body[0].value is not None and not (h.node.args.vararg or h.node.args.kwarg):
+                static = any(isinstance(d, ast.Name) and d.id == "staticmethod" for d in h.node.decorator_list)
+                bound = h.cls is not None and not static
+                try:
+                    from .model import bind_args
+                    m = bind_args(e, h, bound)
+                except Exception:
+                    return e
+                params = h.params()[1:] if bound else h.params()
+                if all(p in m for p in params):
+                    if bound and isinstance(e.func, ast.Attribute):
+                        m = dict(m)
+                        m[h.params()[0]] = e.func.value
+                    return expand_predicate(ctx, fn, subst(body[0].value, m), depth - 1)
+    return e
+
+
 def calls_through(ctx, fn: FuncInfo, target_qname: str, depth: int = 2, _map: dict | None = None) -> list[tuple[ast.Call, list[str]]]:
     """Calls to target reachable from fn, directly or via repo helpers that fn calls; arguments are rewritten into fn's own
     terms by substituting each helper's parameters with the caller's argument expressions (single-assignment locals expanded)."""
